@@ -403,11 +403,27 @@ def check_saved(ctx):
     ok, _ = ctx.api("save-raises", prs.save, buf)
     if not ok or not ctx.added:
         return
+    import zipfile
+
+    from lxml import etree
+
+    dup = [n for n, c in Counter(zipfile.ZipFile(io.BytesIO(buf.getvalue())).namelist()).items() if c > 1]
+    if dup:
+        ctx.bad("saved-duplicate-member", "saved zip holds %s more than once" % dup[:3])
     pkg = opcx.Pkg.from_bytes(buf.getvalue())
     pres = [r.target for r in pkg.rels("/") if r.type == opcx.RT_OFFICE_DOCUMENT][0]
     rels = {r.id: r.target for r in pkg.rels(pres)}
     order = [rels.get(i) for i in xp(pkg.xml_root(pres), "./p:sldIdLst/p:sldId/@r:id")]
     acc.count("saved_packages_read")
+    # "the other slides are untouched": the slides the deck had when it was opened, position by position
+    if getattr(ctx, "before", None) is not None and len(order) >= len(ctx.before) and not getattr(ctx, "reopened", False):
+        for pos, (want, pn) in enumerate(zip(ctx.before, order)):
+            if want is None or pn is None or not pkg.has_part(pn):
+                continue
+            got = etree.tostring(pkg.xml_root(pn), method="c14n")
+            acc.count("preexisting_slides_compared_after_save")
+            if got != want:
+                ctx.bad("other-slide-changed:saved", "slide at position %d (now %s) differs in the saved package from what it was when the deck was opened" % (pos + 1, pn))
     for n, (e, pn) in enumerate(zip(ctx.added, order[-len(ctx.added):])):
         if pn != str(e["slide"].part.partname) or len(order) < len(ctx.added):
             ctx.bad("not-last", "saved p:sldIdLst: position of added slide #%d holds %s, its part is %s" % (n, pn, e["slide"].part.partname))
@@ -470,7 +486,31 @@ def open_deck(deck):
     import pptx
     from vlib import env
 
+    if deck.startswith("manufactured:"):
+        # default-template deck with 2-4 slides whose part names are out of order / gapped / shifted (vlib.histories.manufactured_deck)
+        from vlib import histories
+
+        k = int(deck.split(":")[1])
+        data, _ = histories.manufactured_deck(env.rng("manufactured", "C13", k), 2 + k % 3)
+        return pptx.Presentation(io.BytesIO(data))
     return pptx.Presentation() if deck == "default" else pptx.Presentation(os.path.join(env.REPO, deck))
+
+
+def slides_before(prs):
+    """Canonical XML of every slide already in the deck, in presentation order, read from the part elements by following
+    p:sldIdLst with the harness's own XPath (prs.slides is not touched: that access renames parts)."""
+    from lxml import etree
+
+    out = []
+    pres = prs.part
+    for rid in xp(pres._element, "./p:sldIdLst/p:sldId/@r:id"):
+        try:
+            part = pres.rels[rid].target_part
+        except KeyError:
+            out.append(None)
+            continue
+        out.append(etree.tostring(etree.fromstring(part.blob), method="c14n"))
+    return out
 
 
 def baseline_errors():
@@ -495,6 +535,7 @@ def run_case(case, acc, cls):
     ctx = Ctx(acc, case)
     ctx.baseline = _BASE[0]
     ctx.prs = prs = open_deck(case["deck"])
+    ctx.before = slides_before(prs)
     ctx.masters = list(prs.slide_masters)
     ctx.had_notes_master = any(r.reltype == PRT.NOTES_MASTER for r in prs.part.rels.values())
     case["master"] %= len(ctx.masters)
@@ -527,7 +568,7 @@ def run_case(case, acc, cls):
 def deck_list():
     from vlib import env
 
-    return ["default"] + [os.path.relpath(p, env.REPO) for p in env.corpus_decks()]
+    return ["default"] + [os.path.relpath(p, env.REPO) for p in env.corpus_decks()] + ["manufactured:%d" % k for k in range(12)]
 
 
 def plan(tier, seed):
